@@ -1,7 +1,7 @@
 #!/bin/bash
 # regenerates every lean/G3D/Extracted/*.lean from /repo's current tree (use after evaluating a seeded change)
 cd "$(dirname "$0")/.."
-for e in dispatch dispdist dispangle dispvol khash doc poly classes sites effects consts kvec kvecr kmember kmemberr kinter kinterr kdist kforms karea hflat hpolygon hpolyhedron hbody builders solver mflat mpolygon mpolyhedron mcalc; do
+for e in dispatch dispdist dispangle dispvol khash mmeas doc poly classes sites effects consts kvec kvecr kmember kmemberr kinter kinterr kdist kforms karea hflat hpolygon hpolyhedron hbody builders solver mflat mpolygon mpolyhedron mcalc; do
   n="$(python3 -c "print('$e'.capitalize())")"
   /venv/bin/python -B tools/extract_$e.py ${G3D_SRC:-/repo} > /tmp/.ex_$$ && { cmp -s /tmp/.ex_$$ lean/G3D/Extracted/$n.lean || cp /tmp/.ex_$$ lean/G3D/Extracted/$n.lean; }
   rm -f /tmp/.ex_$$
